@@ -181,7 +181,7 @@ def grep_forbidden(dirs):
 
 
 class Ctx:
-    def __init__(self, pid, tier='quick', seed=None):
+    def __init__(self, pid, tier='quick', seed=None, clear_replays=True):
         self.pid = pid
         self.tier = tier
         if seed is None:
@@ -205,8 +205,9 @@ class Ctx:
         self.scratch = BUILD / pid
         self.scratch.mkdir(parents=True, exist_ok=True)
         REPLAY.mkdir(parents=True, exist_ok=True)
-        for old in REPLAY.glob(f'{pid}_*.json'):
-            old.unlink()
+        if clear_replays:
+            for old in REPLAY.glob(f'{pid}_*.json'):
+                old.unlink()
         self._n_replay = 0
         self._seen_sigs = {}
         self.findings = json.loads((VERIF / 'known_findings.json').read_text()) \
